@@ -13,7 +13,7 @@ package searcher
 // pairwise quantifiers.
 //@ ghostfield search.DocumentMatch.cowner search.Searcher
 //@ uf childIdx(sr search.Searcher) int
-//@ spec conjShape(s *ConjunctionSearcher) bool = len(s.currs) == len(s.searchers) && forall(k, 0, len(s.searchers), s.searchers[k] != nil && childIdx(s.searchers[k]) == k)
+//@ spec conjShape(s *ConjunctionSearcher) bool = len(s.currs) == len(s.searchers) && forall(k, 0, len(s.searchers), s.searchers[k] != nil && s.searchers[k] != s && childIdx(s.searchers[k]) == k)
 //@ spec slotOK(s *ConjunctionSearcher, k int) bool = implies(s.currs[k] != nil, s.searchers[k].started && !s.searchers[k].done && s.searchers[k].last == dmKey(s.currs[k]) && s.currs[k].cowner == s.searchers[k]) && \
 //@     implies(s.currs[k] == nil, s.searchers[k].done)
 // before the first call the children have not been touched
@@ -57,7 +57,8 @@ package searcher
 //@ func ConjunctionSearcher.Next
 //@   props C08
 //@   mode int
-//@   requires s != nil && poolApart(ctx, s) && conjInv(s) && s.scorer != nil
+// (calls after exhaustion are not covered: requires !s.done)
+//@   requires s != nil && poolApart(ctx, s) && conjInv(s) && s.scorer != nil && !s.done
 //@   modifies fields(ConjunctionSearcher), s.currs[*], fields(search.DocumentMatch), search.DocumentMatch.cowner, search.DocumentMatchPool.avail, mem(*search.DocumentMatch), search.Searcher.started, search.Searcher.last, search.Searcher.done
 //@   at call searcher.Next#0 after: ghost result0.cowner = recv
 //@   at return: ghost s.started = s.started || (result1 == nil && result0 != nil)
@@ -65,25 +66,25 @@ package searcher
 //@   at return: ghost s.done = s.done || (result1 == nil && result0 == nil)
 //@   ensures implies(result1 == nil, poolApart(ctx, s) && conjInv(s) && s.initialized)
 //@   ensures implies(result1 == nil && result0 != nil, ascending(old(s.started), old(s.last), result0) && s.started && s.last == dmKey(result0))
-//@   ensures implies(result1 == nil && result0 != nil && old(s.initialized), forall(k, 0, len(s.searchers), implies(old(s.currs[k]) != nil, dmKey(result0) >= old(dmKey(s.currs[k])))))
+//@   ensures implies(result1 == nil && result0 != nil && old(s.initialized), len(s.searchers) > 0 && forall(k, 0, len(s.searchers), old(s.currs[k]) != nil && dmKey(result0) >= old(dmKey(s.currs[k]))))
 //@   ensures implies(result1 == nil && result0 == nil, s.done)
 //@   loop 0: invariant rv == nil && 0 <= s.maxIDIdx && conjLoop(ctx, s) && s.currs == old(s.currs) && s.searchers == old(s.searchers) && s.scorer == old(s.scorer) && s.started == old(s.started) && s.last == old(s.last) && s.done == old(s.done)
-//@   loop 0: invariant forall(k, 0, len(s.searchers), implies(old(s.initialized) && old(s.currs[k]) != nil && s.currs[k] != nil, dmKey(s.currs[k]) >= old(dmKey(s.currs[k]))))
+//@   loop 0: invariant forall(k, 0, len(s.searchers), implies(old(s.initialized) && old(s.currs[k]) != nil && s.currs[k] != nil, dmKey(s.currs[k]) >= old(dmKey(s.currs[k])))) && forall(k, 0, len(s.searchers), implies(old(s.initialized) && old(s.currs[k]) == nil, s.currs[k] == nil))
 //@   loop 1: invariant rv == nil && conjLoop(ctx, s) && s.currs == old(s.currs) && s.searchers == old(s.searchers) && s.scorer == old(s.scorer) && s.started == old(s.started) && s.last == old(s.last) && s.done == old(s.done)
-//@   loop 1: invariant forall(k, 0, len(s.searchers), implies(old(s.initialized) && old(s.currs[k]) != nil && s.currs[k] != nil, dmKey(s.currs[k]) >= old(dmKey(s.currs[k]))))
+//@   loop 1: invariant forall(k, 0, len(s.searchers), implies(old(s.initialized) && old(s.currs[k]) != nil && s.currs[k] != nil, dmKey(s.currs[k]) >= old(dmKey(s.currs[k])))) && forall(k, 0, len(s.searchers), implies(old(s.initialized) && old(s.currs[k]) == nil, s.currs[k] == nil))
 //@   loop 1: invariant 0 <= i && i <= len(s.currs) && 0 <= s.maxIDIdx && s.maxIDIdx < len(s.currs) && s.currs[s.maxIDIdx] != nil && maxID == s.currs[s.maxIDIdx].IndexInternalID && forall(k, 0, i, s.currs[k] != nil && dmKey(s.currs[k]) == idKey(maxID))
 //@   loop 2: invariant rv == nil && conjLoop(ctx, s) && s.currs == old(s.currs) && s.searchers == old(s.searchers) && s.scorer == old(s.scorer) && s.started == old(s.started) && s.last == old(s.last) && s.done == old(s.done)
-//@   loop 2: invariant forall(k, 0, len(s.searchers), implies(old(s.initialized) && old(s.currs[k]) != nil && s.currs[k] != nil, dmKey(s.currs[k]) >= old(dmKey(s.currs[k]))))
+//@   loop 2: invariant forall(k, 0, len(s.searchers), implies(old(s.initialized) && old(s.currs[k]) != nil && s.currs[k] != nil, dmKey(s.currs[k]) >= old(dmKey(s.currs[k])))) && forall(k, 0, len(s.searchers), implies(old(s.initialized) && old(s.currs[k]) == nil, s.currs[k] == nil))
 //@   loop 2: invariant 0 <= x && x <= i && i == s.maxIDIdx && i < len(s.currs) && s.currs[i] != nil && maxID == s.currs[i].IndexInternalID && forall(k, x, i, s.currs[k] != nil && dmKey(s.currs[k]) < idKey(maxID))
 //@   loop 3: invariant rv != nil && s.initialized && conjShape(s) && poolApart(ctx, s) && s.currs == old(s.currs) && s.searchers == old(s.searchers) && s.started == old(s.started) && s.last == old(s.last) && s.done == old(s.done) && implies(s.started, dmKey(rv) > s.last)
-//@   loop 3: invariant forall(k, 0, len(s.searchers), implies(old(s.initialized) && old(s.currs[k]) != nil, dmKey(rv) >= old(dmKey(s.currs[k]))))
+//@   loop 3: invariant len(s.searchers) > 0 && forall(k, 0, len(s.searchers), implies(old(s.initialized), old(s.currs[k]) != nil && dmKey(rv) >= old(dmKey(s.currs[k]))))
 //@   loop 3: invariant forall(k, 0, iter, slotOK(s, k) && implies(s.currs[k] != nil, dmKey(s.currs[k]) > dmKey(rv))) && forall(k, iter, len(s.searchers), s.currs[k] != nil && slotOK(s, k) && dmKey(s.currs[k]) == dmKey(rv) && implies(k > 0, s.currs[k] != rv)) && implies(iter == 0, s.currs[0] == rv)
 
 // Advance: children behind the target are advanced, then Next finds the first common id
 //@ func ConjunctionSearcher.Advance
 //@   props C08
 //@   mode int
-//@   requires s != nil && poolApart(ctx, s) && conjInv(s) && s.scorer != nil && (s.done || unconsumed(s.started, s.last, idKey(ID)))
+//@   requires s != nil && poolApart(ctx, s) && conjInv(s) && s.scorer != nil && !s.done && unconsumed(s.started, s.last, idKey(ID))
 //@   modifies fields(ConjunctionSearcher), s.currs[*], fields(search.DocumentMatch), search.DocumentMatch.cowner, search.DocumentMatchPool.avail, mem(*search.DocumentMatch), search.Searcher.started, search.Searcher.last, search.Searcher.done
 //@   at return: ghost s.started = s.started || (result1 == nil && result0 != nil)
 //@   at return: ghost s.last = ite(result1 == nil && result0 != nil, dmKey(result0), s.last)
